@@ -20,28 +20,28 @@
  * Exact fields (returned by eval_exact_u / eval_exact_v):
  *     U(eta) = a1 eta (1 - eta/2),   NU(eta) = b1 eta - (etam+1) b1 eta^2/(2 etam) + b1 eta^3/(3 etam).
  * Jets use x as the eta direction. */
-#define RS_FIELDS \
-  JVARX(E, eta); JMUL(E2_, E, E); JMUL(E3_, E2_, E); \
-  /* coefficients are bound to locals first: a LIT() call multiplied by a jet component that constant-folds (0, 1, 2) \
-     inside one expression trips a CBMC 6.11 simplifier invariant (std_expr.cpp operator==) under --dfcc */ \
-  Sc ku2_ = -LIT(1, 2) * a1, kn2_ = -(etam + 1) * b1 * vinv(2 * etam), kn3_ = b1 * vinv(3 * etam); \
-  JSCALE(U1_, a1, E); JSCALE(U2_, ku2_, E2_); JADD(U, U1_, U2_); \
+/* coefficients are bound to locals first: a LIT() call multiplied by a jet component that constant-folds (0, 1, 2)
+   inside one expression trips a CBMC 6.11 simplifier invariant (std_expr.cpp operator==) under --dfcc */
+#define RS_ETA JVARX(E, eta); JMUL(E2_, E, E); JMUL(E3_, E2_, E)
+#define RS_U   Sc ku2_ = -LIT(1, 2) * a1; JSCALE(U1_, a1, E); JSCALE(U2_, ku2_, E2_); JADD(U, U1_, U2_)
+#define RS_NU  Sc kn2_ = -(etam + 1) * b1 * vinv(2 * etam), kn3_ = b1 * vinv(3 * etam); \
   JSCALE(N1_, b1, E); JSCALE(N2_, kn2_, E2_); JSCALE(N3_, kn3_, E3_); JADD(N12_, N1_, N2_); JADD(NU, N12_, N3_)
+#define RS_FIELDS RS_ETA; RS_U; RS_NU
 /* eddy viscosity jet VT = NU * fv1(CHI), CHI = NU * re_tau */
 #define RS_VT \
   JSCALE(CHI, re_tau, NU); JMUL(CH2_, CHI, CHI); JMUL(CH3_, CH2_, CHI); JADDC(DEN_, CH3_, cv1 * cv1 * cv1); \
   JINV(IDEN_, DEN_); JMUL(FV1, CH3_, IDEN_); JMUL(VT, NU, FV1)
 
-static Sc rs_u(Sc eta) { RS_FIELDS; return U_v; }
-static Sc rs_du(Sc eta) { RS_FIELDS; return U_x; }
-static Sc rs_d2u(void) { Sc eta = 0; RS_FIELDS; return U_xx; }   /* U'' is constant (U is quadratic): the value at any eta */
-static Sc rs_nu(Sc eta) { RS_FIELDS; return NU_v; }
-static Sc rs_dnu(Sc eta) { RS_FIELDS; return NU_x; }
-static Sc rs_d2nu(Sc eta) { RS_FIELDS; return NU_xx; }
-static Sc rs_chi(Sc eta) { RS_FIELDS; RS_VT; return CHI_v; }
-static Sc rs_fv1(Sc eta) { RS_FIELDS; RS_VT; return FV1_v; }
-static Sc rs_vt(Sc eta) { RS_FIELDS; RS_VT; return VT_v; }
-static Sc rs_dvt(Sc eta) { RS_FIELDS; RS_VT; return VT_x; }
+static Sc rs_u(Sc eta) { RS_ETA; RS_U; return U_v; }
+static Sc rs_du(Sc eta) { RS_ETA; RS_U; return U_x; }
+static Sc rs_d2u(void) { Sc eta = 0; RS_ETA; RS_U; return U_xx; }   /* U'' is constant (U is quadratic): the value at any eta */
+static Sc rs_nu(Sc eta) { RS_ETA; RS_NU; return NU_v; }
+static Sc rs_dnu(Sc eta) { RS_ETA; RS_NU; return NU_x; }
+static Sc rs_d2nu(Sc eta) { RS_ETA; RS_NU; return NU_xx; }
+static Sc rs_chi(Sc eta) { RS_ETA; RS_NU; RS_VT; return CHI_v; }
+static Sc rs_fv1(Sc eta) { RS_ETA; RS_NU; RS_VT; return FV1_v; }
+static Sc rs_vt(Sc eta) { RS_ETA; RS_NU; RS_VT; return VT_v; }
+static Sc rs_dvt(Sc eta) { RS_ETA; RS_NU; RS_VT; return VT_x; }
 static Sc rs_fv2(Sc eta) { Sc c = rs_chi(eta); return 1 - c * vinv(1 + c * rs_fv1(eta)); }
 static Sc rs_cw1(void) { return cb1 * vinv(kappa * kappa) + (1 + cb2) * vinv(sigma); }
 static Sc rs_sbar(Sc eta) { return rs_nu(eta) * rs_fv2(eta) * vinv(kappa * kappa * eta * eta); }
@@ -67,7 +67,7 @@ static Sc rs_production(Sc eta) { return cb1 * rs_s(eta) * rs_nu(eta); }
 static Sc rs_destruction(Sc eta) { Sc nd = rs_nu(eta) * vinv(eta); return rs_cw1() * rs_fw(eta) * nd * nd; }
 static Sc rs_transport(Sc eta)
 { /* (1/sigma) [ ((1/re_tau + NU) NU')' + cb2 NU'^2 ]   (sub-terms bound to locals: helps the solvers) */
-  RS_FIELDS; Sc ir = vinv(re_tau); JADDC(DIF_, NU, ir);
+  RS_ETA; RS_NU; Sc ir = vinv(re_tau); JADDC(DIF_, NU, ir);
   Sc flux_x = DIF__x * NU_x + DIF__v * NU_xx;
   Sc gsq = NU_x * NU_x;
   return vinv(sigma) * (flux_x + cb2 * gsq);
